@@ -89,6 +89,16 @@ func RunFixpointCover(w *World, r *Report, br *boundsRun, fns []*ssa.Function) {
 						continue
 					}
 					n++
+					// a bound that is written as "something minus a constant" cuts the range on purpose:
+					// then every element read elsewhere has to be shown to lie inside it
+					if cutBound(l) {
+						d2, ok2 := arg.bound.sub(p.linOf(ia.Index))
+						if !ok2 || !p.proveAt(b, d2) {
+							bad = fmt.Sprintf("element %s is read here, and the comparison stops short at %s, which is not shown to lie beyond it", p.linStr(p.linOf(ia.Index)), p.linStr(arg.bound))
+							badPos = ia.Pos()
+						}
+						continue
+					}
 					// definite omission: index >= bound + 1, i.e. index - bound - 1 >= 0 where the loop stays while ctr <= bound
 					d, ok := p.linOf(ia.Index).sub(arg.bound)
 					if ok && p.proveAt(b, d.addc(-1)) {
@@ -172,4 +182,34 @@ func RunFixpointCover(w *World, r *Report, br *boundsRun, fns []*ssa.Function) {
 			}
 		}
 	}
+}
+
+// cutBound: the loop's continuation test compares the counter with a value
+// written as a difference with a positive constant (i < n-1).
+func cutBound(l *natLoop) bool {
+	for b := range l.body {
+		if len(b.Instrs) == 0 {
+			continue
+		}
+		ifi, ok := b.Instrs[len(b.Instrs)-1].(*ssa.If)
+		if !ok {
+			continue
+		}
+		exits := !l.body[b.Succs[0]] || !l.body[b.Succs[1]]
+		if !exits {
+			continue
+		}
+		cmp, ok := ifi.Cond.(*ssa.BinOp)
+		if !ok {
+			continue
+		}
+		for _, op := range []ssa.Value{cmp.X, cmp.Y} {
+			if sub, ok := op.(*ssa.BinOp); ok && sub.Op == token.SUB {
+				if c, ok := sub.Y.(*ssa.Const); ok && c.Value != nil && c.Int64() > 0 {
+					return true
+				}
+			}
+		}
+	}
+	return false
 }
